@@ -128,4 +128,21 @@ Fixpoint dm_clear (ops : list (op X)) (cb : list nat) (rho : Dm X) : bool :=
     dm_clear tl cb (dadd X (dproj X q false rho) (dproj X q true rho))
   end.
 
+(* tolerance guard for the branch-tracking density-matrix path: at every measurement each outcome trace of every
+   tracked branch is kept or exactly 0, the run raises no exception, and some branch survives *)
+Fixpoint dm_bclear (ops : list (op X)) (m : bmap X) : bool :=
+  match ops with
+  | [] => negb (is_nil m)
+  | o :: tl =>
+    (match o with
+     | OMeas q _ => forallb (fun kx => pok (dtr X (dproj X q false (snd kx))) && pok (dtr X (dproj X q true (snd kx)))) m
+     | _ => true
+     end) &&
+    match dm_bstep X o m with Ok m' => dm_bclear tl m' | Err => false end
+  end.
+
+(* the guard of the density-matrix clause, following the path the code takes *)
+Definition dm_guard (ncb : nat) (ops : list (op X)) (cb0 : list nat) (rho0 : Dm X) : bool :=
+  if Nat.ltb 0 ncb && dm_branching X ops then dm_bclear ops [(cb0, rho0)] else dm_clear ops cb0 rho0.
+
 End Spec.
